@@ -32,7 +32,12 @@ HARNESS = 'c05.cpp'
 SOURCES = ['src/transform/estimation/FindRigidTransformationByLeastSquares.cpp', 'src/regression/leastsquares/LeastSquares.cpp',
            'src/pointset/algorithms/PreconditionedPointSet.cpp', 'src/pointset/algorithms/PointSetPreconditioner.cpp',
            'src/pointset/algorithms/Correspondence.cpp']
-PROOF_MODULES = ['RomeaProofs.Properties.C05', 'RomeaProofs.Bridge.C05', 'RomeaProofs.Bridge.C05Cor']
+# LeastSquares.cpp is an anchored file of C05 too (the solver `find` calls): the bridge of C07 — every member function of
+# `LeastSquares<RealType>` translated from the current source = the solver model C05's theorems take as their solver — is an obligation
+# of this check as well (seeded change c05f: a factorisation cache inside `estimateUsingSVD`, visible only to a reused estimator whose
+# consecutive normal matrices agree to 1e-5 relative)
+PROOF_MODULES = ['RomeaProofs.Properties.C05', 'RomeaProofs.Bridge.C05', 'RomeaProofs.Bridge.C05Cor',
+                 'RomeaProofs.Bridge.C07', 'RomeaProofs.Bridge.C07Cor']
 TRUSTED = ['Eigen JacobiSVD is a parameter of the solver model with the contract IsSVD (RomeaProofs/Properties/C07.lean); the driver '
            'plugs in a Lean Float Jacobi iteration and the matrices are compared within a cond^2-scaled tolerance',
            'the probe judges the C++ outputs against an independent Householder-QR solution computed in Python doubles']
@@ -79,7 +84,10 @@ BRIDGE_SPEC = {
 
 def regen(ctx):
     import bridge
-    return bridge.regen_bridge(ctx, BRIDGE_SPEC)
+    from props import c07
+    info = bridge.regen_bridge(ctx, BRIDGE_SPEC)
+    info['bridge_solver'] = bridge.regen_bridge(ctx, c07.BRIDGE_SPEC).get('bridge')
+    return info
 
 
 TYPES = {'c2d': (2, 2, 'd'), 'c3d': (3, 3, 'd'), 'h2d': (2, 3, 'd'), 'h3d': (3, 4, 'd'),
